@@ -177,6 +177,25 @@ pub fn blocked_raa_update_lost_on_reload(sim: &Sim) -> bool {
 	false
 }
 
+/// Known symptoms (library panics / debug assertions) of the listed id-reuse finding, keyed on the panic message
+/// *and* the history condition `blocked_raa_update_lost_on_reload`.
+pub fn classify_id_reuse_panic(sim: &Sim, msg: &str) -> Option<&'static str> {
+	let key = if msg.contains("Latest counterparty commitment secret was invalid") {
+		"panic/commitment-secret-rejected/blocked-raa-update-dropped-on-stale-reload"
+	} else if msg.contains("Attempted to apply post-force-close ChannelMonitorUpdate") {
+		"panic/post-force-close-update/blocked-update-id-reused-after-stale-reload"
+	} else if msg.contains("HTLC Sources for all revoked commitment transactions should be none") {
+		"panic/htlc-sources-of-revoked-commitment-kept/blocked-raa-update-dropped-on-stale-reload"
+	} else {
+		return None;
+	};
+	if blocked_raa_update_lost_on_reload(sim) {
+		Some(key)
+	} else {
+		None
+	}
+}
+
 impl RestartOracle {
 	pub fn new(sim: &Sim) -> RestartOracle {
 		RestartOracle {
